@@ -325,7 +325,8 @@ def merge_once(ctx, recipe, tables, tags, rrng, label):
         ctx.diverge(case, "outcome (by ID) or branch trace differs from the model", tags,
                     detail={"model": resp["model"], "model_trace": resp["model_trace"]})
     # merging (or refusing to) leaves every operand as it was, and coherent with its own lookups
-    same_obj = r is not None and any(r is t for t in tables)
+    # an empty list of others is outside the property (the fold returns the receiver itself)
+    same_obj = r is not None and len(others) == 0 and any(r is t for t in tables)
     for k, t in enumerate(tables):
         now = core.table_obs(t)
         if now != before[k]:
@@ -392,7 +393,10 @@ def run_case(ctx, recipe, tags=()):
             ctx.count("alias=%s on %s" % (then["op"], "result" if target == "result" else "operand"))
             case = {"recipe": recipe, "stage": "alias"}
             for name, t in live:
-                if name == target or t is tobj:
+                if name == target:
+                    continue
+                if t is tobj:
+                    ctx.fail(case, "alias:result-is-an-operand", tuple(tags) + ("alias", "same=%s" % name))
                     continue
                 if name == "result":
                     ok = by_id(public_obs(t)) == by_id(r_before)
